@@ -151,8 +151,9 @@ RULES = {}
 # reported by the flush guarantee (C06) that is stated in terms of it.
 DEPENDS = {
     "C03": ["C01", "C02"],        # exactly-once / in-order delivery rests on both queues
-    "C06": ["C05"],               # the cross-thread clause of flush_log rests on the timestamp-ordering mechanism
-    "C07": ["C03"],               # the exit drain uses the hand-over chain
+    "C06": ["C05", "C03"],        # the cross-thread clause of flush_log rests on the timestamp-ordering mechanism; 'earlier statements
+                                  # are written' rests on the hand-over chain (a thread whose queue the backend never reads never flushes)
+    "C07": ["C03", "C06"],        # the exit drain uses the hand-over chain; 'is in the destination' rests on the flush chain of the sinks
     "C08": ["C01"],               # 'delivered intact and in order' rests on the bounded queue
     "C10": ["C06"],               # 'disturbs nothing else' includes the flush guarantee of the healthy sinks
     "C11": ["C01"],               # 'a statement that fits the current buffer' is decided by the bounded queue's space guard
@@ -217,6 +218,10 @@ def run_property(pid, tier, only=None, quiet=False):
 
     findings, _fixed = load_known()
     bad = [o for o in ctx.obligations if not o["ok"]]
+    if os.environ.get("QV_DUMP"):   # debugging aid: list the obligations whose rule id contains the given text
+        for o in ctx.obligations:
+            if os.environ["QV_DUMP"] in o["rule"]:
+                print("    [%s] %s %s @ %s : %s" % ("ok" if o["ok"] else "NO", o["rule"], o["site"], o["loc"], o["what"][:200]))
     if only is not None:
         sel = [o for o in ctx.obligations if o["rule"] == only[0] and o["site"] == only[1]]
         for o in sel:
